@@ -7,6 +7,7 @@ pub mod misc;
 pub mod pair;
 pub mod session;
 pub mod streams;
+pub mod trace;
 
 pub fn generate(suite: &str, rng: &mut Rng, thorough: bool) -> (&'static str, Vec<Case>) {
     match suite {
@@ -16,6 +17,7 @@ pub fn generate(suite: &str, rng: &mut Rng, thorough: bool) -> (&'static str, Ve
         "pair" => ("E2C", pair::generate(rng, thorough)),
         "emit" | "signals" | "wdgram" | "client" | "credit" => ("E2C", misc::generate(rng, thorough, suite)),
         "streams" | "foreign" | "unknown_uni" | "stall" | "pace" | "requests" => ("E2C", streams::generate(rng, thorough, suite)),
+        "trace" | "cell" => ("E3C", trace::generate(rng, thorough, suite)),
         _ => panic!("unknown suite {}", suite),
     }
 }
@@ -31,6 +33,8 @@ pub async fn exec(f: u32, args: &Args) -> Args {
         651 => misc::exec_dgram(args).await,
         661 => misc::exec_client(args).await,
         671 => pair::exec(args).await,
+        681 => trace::exec_681(args).await,
+        691 => trace::exec_691(args).await,
         _ => panic!("unknown function id {}", f),
     }
 }
@@ -45,6 +49,8 @@ pub fn oracle(f: u32, args: &Args, out: &Args) -> Option<(&'static str, String)>
         621 => streams::oracle(args, out),
         631 | 632 | 641 | 651 | 661 => misc::oracle(f, args, out),
         671 => pair::oracle(args, out),
+        681 => trace::oracle_681(args, out),
+        691 => trace::oracle_691(args, out),
         _ => None,
     }
 }
